@@ -93,12 +93,13 @@ char *xv_strcpy(char *dst, const char *src)
 /* TRUSTED(libc) <ctype.h>: glibc's isspace(c) is ((*__ctype_b_loc())[(int)(c)] & _ISspace), a table indexed -128..255.
  * For the 128 ASCII codes the _ISspace bit is the C/POSIX one (\t \n \v \f \r and the blank; no locale changes it); for
  * the codes 128..255 -- which a plain `char` argument reaches as -128..-1 -- it depends on the locale of the
- * application: ARBITRARY (xv_addrpub_havoc() below).  Only the _ISspace bit is meaningful in this table. */
-unsigned short xv_ctype_tab[384] = {
-    [128 + '\t'] = _ISspace, [128 + '\n'] = _ISspace, [128 + '\v'] = _ISspace, [128 + '\f'] = _ISspace, [128 + '\r'] = _ISspace, [128 + ' '] = _ISspace
-};
-const unsigned short *xv_ctype_p = xv_ctype_tab + 128;
+ * application: ARBITRARY.  Every other bit of the table is arbitrary too.  (goto-instrument --dfcc makes every object of
+ * static storage duration nondeterministic, initialisers included: the table is therefore set up by executed code,
+ * xv_addrpub_env_havoc() below, which every harness of the unit calls first.) */
+unsigned short xv_ctype_tab[384];
+const unsigned short *xv_ctype_p;
 const unsigned short **__ctype_b_loc(void) { return &xv_ctype_p; }
+/* the specification's "is white space": what the table says */
 #define XV_ISSPACE(c) ((xv_ctype_tab[128 + (int)(c)] & _ISspace) != 0)
 
 /* TRUSTED(libc) inet_pton(3): textual IP syntax is glibc's.  Verdict 0/1 arbitrary; on 1 the address bytes (4 or 16) are
@@ -153,9 +154,15 @@ static inline void xv_addrpub_env_havoc(void)
     xv_pton_calls = nondet_int(); xv_pton_af = nondet_int(); xv_pton_ret = nondet_int(); xv_pton_c = nondet_char();
     __CPROVER_havoc_slice(xv_pton_out, sizeof(xv_pton_out));
     xv_regexec_calls = nondet_int(); xv_regexec_ret = nondet_int(); xv_regexec_on_input = nondet_bool();
-    /* isspace() of the non-ASCII codes: locale dependent */
-    __CPROVER_havoc_slice(xv_ctype_tab, 128 * sizeof(xv_ctype_tab[0]));
-    __CPROVER_havoc_slice(xv_ctype_tab + 256, 128 * sizeof(xv_ctype_tab[0]));
+    /* <ctype.h> table: arbitrary, except the _ISspace bit of the 128 ASCII codes */
+    __CPROVER_havoc_slice(xv_ctype_tab, sizeof(xv_ctype_tab));
+    xv_ctype_p = xv_ctype_tab + 128;
+#define XV_CT1(c) xv_ctype_tab[128 + (c)] = (unsigned short)((xv_ctype_tab[128 + (c)] & ~(unsigned)_ISspace) | (((c) == 32 || ((c) >= 9 && (c) <= 13)) ? (unsigned)_ISspace : 0u));
+#define XV_CT8(c) XV_CT1(c) XV_CT1((c) + 1) XV_CT1((c) + 2) XV_CT1((c) + 3) XV_CT1((c) + 4) XV_CT1((c) + 5) XV_CT1((c) + 6) XV_CT1((c) + 7)
+#define XV_CT32(c) XV_CT8(c) XV_CT8((c) + 8) XV_CT8((c) + 16) XV_CT8((c) + 24)
+    XV_CT32(0) XV_CT32(32) XV_CT32(64) XV_CT32(96)
+    /* the IPv6 wildcard address is all zero */
+    { struct in6_addr z_ = { { { 0 } } }; *(struct in6_addr *)&in6addr_any = z_; }
 }
 
 #define strlen(s) xv_strlen(s)
